@@ -524,7 +524,7 @@ fn gen_time(c: &mut Ctx) -> NaiveTime {
     let nano = match c.rng.below(4) {
         0 => *c.rng.pick(&[0u32, 1, 999_999_999, 1_000_000_000, 1_999_999_999, 500_000_000]),
         1 => c.rng.range(1_000_000_000, 1_999_999_999) as u32,
-        _ => c.rng.below(1_000_000_000) as u32,
+        _ => c.rng.nanos(),
     };
     // a leap-second fraction is only representable in second 59
     let secs = if nano >= 1_000_000_000 { secs - secs % 60 + 59 } else { secs };
@@ -679,6 +679,17 @@ fn time_fields(c: &mut Ctx) {
         if ru.map(|o| o.map(|x| x.naive_utc())) != want {
             c.fail(&format!("DateTime<Utc>::{name} differs from the naive value (restricted to MIN_UTC..=MAX_UTC)"), &format!("{dt:?} v={v}"));
         }
+    }
+    // any fixed offset (sub-minute ones included): the replaced field is the wall-clock one
+    let off = gen_offset(c);
+    if let Some(dt) = guard(|| off.from_local_datetime(&ndt).single()).ok().flatten() {
+        let rf = guard(|| match field {
+            0 => dt.with_hour(v),
+            1 => dt.with_minute(v),
+            2 => dt.with_second(v),
+            _ => dt.with_nanosecond(v),
+        });
+        zoned_oracle(c, name, &format!("{dt:?} v={v}"), &dt, rf, rn);
     }
 }
 
